@@ -45,7 +45,10 @@ Definition model_decode_gws : list (bytes * bytes) :=
    else -- no shutdown / closeConn / teardown (UpMsg); the read loop dispatches data / error / complete, answers
    ping, and shuts down on a read error; IntoClientMessage is into_client (an error WITHOUT payload becomes
    MessageTypeConnectionError for that one handler); the two decode switches are the tables above, a next / data
-   payload that does not unmarshal and any other type string are errors. *)
+   payload that does not unmarshal and any other type string are errors.
+   connKey (full-body match): endpoint, sub-protocol, opts.Headers.Write(h) -- the WHOLE multimap, every value of
+   every name, as Header.Write prints it; no loop over the header map, no indexing of a value list, no Get --
+   and the JSON of the init payload, separated by NUL bytes (conn_key / hdr_lines). *)
 Lemma anchors_ok :
   anchor_connkey_fields = model_key_fields
   /\ anchor_dial_uses_caller_ctx = true /\ anchor_waiter_never_inherits_abort = true
@@ -53,14 +56,15 @@ Lemma anchors_ok :
   /\ anchor_subscribe_restarts_on_closed = true /\ anchor_close_decided_under_lock = true
   /\ anchor_subscribe_write_conn_ctx = true
   /\ anchor_subscribe_registers_before_ctx_test = true /\ anchor_dispatch_by_id_local = true
-  /\ anchor_into_client_message = true /\ anchor_decode_tws = model_decode_tws /\ anchor_decode_gws = model_decode_gws.
+  /\ anchor_into_client_message = true /\ anchor_decode_tws = model_decode_tws /\ anchor_decode_gws = model_decode_gws
+  /\ anchor_connkey_whole_header_multimap = true.
 Proof. repeat split; reflexivity. Qed.
 
 (* ---- non-vacuity examples for the theorems in Properties.v ---- *)
 From Gv Require Import C18.ProofsRouting.
 Close Scope N_scope.
 
-Definition Kx : key := (1, 1, 0, 0)%N.
+Definition Kx : key := (1, 1, [], 0)%N.
 (* coalesced dial; both subscribed on connection 0 (wire ids 0 -> sub 0, 1 -> sub 1) *)
 Definition tr_two : list action :=
   [ASub 0 Kx; UpAccept 0; ASub 1 Kx; UpAck 0 PTws; ABook 0; APublish 0; AWaitDone 1; AInsert 0; AInsert 1; ASend 1; ASend 0].
@@ -100,7 +104,7 @@ Proof.
 Qed.
 
 (* legacy graphql-ws: a connection_error frame that carries wire id 1 *)
-Definition Kl : key := (1, 2, 0, 0)%N.
+Definition Kl : key := (1, 2, [], 0)%N.
 Definition tr_two_l : list action :=
   [ASub 0 Kl; UpAccept 0; ASub 1 Kl; UpAck 0 PGws; ABook 0; APublish 0; AWaitDone 1; AInsert 0; AInsert 1; ASend 1; ASend 0].
 Definition f_connerr (w : option nat) : frame := {| f_type := FConnError; f_id := w; f_pl := PNone |}.
@@ -143,6 +147,55 @@ Example ex_shared :
 Proof.
   do 3 eexists. split; [exists tr_two; vm_compute; reflexivity|].
   split; [vm_compute; reflexivity|]. simpl. repeat split; auto.
+Qed.
+
+(* ---- multi-valued headers ---- *)
+(* X-Scope (7): [read (1); tenant-a (2)]  vs  [read; tenant-b (3)]: the names and the first value of every name agree *)
+Definition oA : opts := (1, 1, [(7, [1; 2])], 0)%N.
+Definition oB : opts := (1, 1, [(7, [1; 3])], 0)%N.
+(* [read] vs [read; admin]; value order; a name whose only value is the empty string (0) vs the name without values *)
+Definition oC : opts := (1, 1, [(7, [1])], 0)%N.
+Definition oD : opts := (1, 1, [(7, [1; 4])], 0)%N.
+Definition oE : opts := (1, 1, [(7, [2; 1])], 0)%N.
+Definition oF : opts := (1, 1, [(7, [0])], 0)%N.
+Definition oG : opts := (1, 1, [(7, [])], 0)%N.
+Definition oH : opts := (1, 1, [], 0)%N.
+(* sub 0 connects alone, then sub 1 arrives: with a live connection under its key it registers there *)
+Definition tr_seq (ka kb : key) : list action :=
+  [ASub 0 ka; UpAccept 0; UpAck 0 PTws; ABook 0; APublish 0; AInsert 0; ASend 0; ASub 1 kb; AInsert 1; ASend 1].
+Definition tr_seq2 (ka kb : key) : list action :=
+  [ASub 0 ka; UpAccept 0; UpAck 0 PTws; ABook 0; APublish 0; AInsert 0; ASend 0;
+   ASub 1 kb; UpAccept 1; UpAck 1 PTws; ABook 1; APublish 1; AInsert 1; ASend 1].
+
+Lemma same_opts_hvals : forall a b n, same_opts a b -> hvals (snd (fst a)) n = hvals (snd (fst b)) n.
+Proof. intros [[[e1 p1] h1] i1] [[[e2 p2] h2] i2] n (_ & _ & _ & H). apply H. Qed.
+
+(* the key over the whole multimap tells all of these apart (and identifies a name without values with an absent
+   name, which is what the upgrade request carries); under it the two subscriptions get a connection each *)
+Example ex_multi_valued_keys :
+  conn_key oA <> conn_key oB /\ conn_key oC <> conn_key oD /\ conn_key oA <> conn_key oE /\ conn_key oF <> conn_key oG
+  /\ conn_key oG = conn_key oH /\ same_opts oG oH
+  /\ exists s log x y, run (init false) (tr_seq2 (conn_key oA) (conn_key oB)) = Some (s, log)
+                       /\ cns s 0 = Some x /\ c_subs x = [(0, 0)] /\ cns s 1 = Some y /\ c_subs y = [(1, 1)]
+                       /\ shared_b [(0, conn_key oA); (1, conn_key oB)] log = true
+                       /\ run (init false) (tr_seq (conn_key oA) (conn_key oB)) = None.
+Proof.
+  split; [vm_compute; discriminate|]. split; [vm_compute; discriminate|]. split; [vm_compute; discriminate|].
+  split; [vm_compute; discriminate|]. split; [vm_compute; reflexivity|].
+  split; [simpl; repeat split; intro n; unfold hvals; simpl; destruct n as [|q]; [reflexivity | destruct (Pos.eqb 7 q); reflexivity]|].
+  do 4 eexists. repeat (split; [vm_compute; reflexivity|]). vm_compute; reflexivity.
+Qed.
+
+(* a key over the FIRST value of every name is refuted: it identifies option tuples whose multimaps differ, and the
+   transport keyed by it registers both subscriptions on connection 0, whose upgrade carried subscriber 0's headers *)
+Lemma first_value_key_refuted_proof :
+  exists oi oj, conn_key (first_value_opts oi) = conn_key (first_value_opts oj) /\ ~ same_opts oi oj
+    /\ exists s log x, run (init false) (tr_seq (conn_key (first_value_opts oi)) (conn_key (first_value_opts oj))) = Some (s, log)
+                       /\ cns s 0 = Some x /\ In (0, 0) (c_subs x) /\ In (1, 1) (c_subs x).
+Proof.
+  exists oA, oB. split; [vm_compute; reflexivity|]. split.
+  - intro H. apply (same_opts_hvals _ _ 7%N) in H. vm_compute in H. discriminate.
+  - do 3 eexists. split; [vm_compute; reflexivity|]. split; [vm_compute; reflexivity|]. simpl. auto.
 Qed.
 
 Example ex_conns_drain :
